@@ -209,6 +209,26 @@ class Runner:
             if cands:
                 cands[int(op[1]) % len(cands)].crash()
                 self.faults_applied += 1
+        elif kind == 'restart_checked':
+            # quick restart of an instance that some observer currently holds in the handshake window (CHECKING / CHECKED)
+            cands = []
+            for x in w.instances:
+                if not x.alive or x.supvisors is None:
+                    continue
+                for ident, status in x.supvisors.context.instances.items():
+                    peer = w.by_identifier(ident)
+                    if peer is not None and peer is not x and peer.alive and status.state.name in ('CHECKING', 'CHECKED') \
+                            and peer not in cands:
+                        cands.append(peer)
+            if cands:
+                peer = cands[int(op[1]) % len(cands)]
+                peer.crash()
+                self.faults_applied += 1
+                down = int(op[2])
+                if down <= 0:
+                    peer.boot()
+                else:
+                    self.pending_boot[peer.idx] = w.now + down
         elif kind == 'rpc_master':
             # a user XML-RPC issued on the instance that most live instances hold as Master
             votes = {}
@@ -512,6 +532,7 @@ class Profile:
     rpc_rare = ()                  # XML-RPC methods drawn 6 times less often by rpc_fuzz
     behaviour_everywhere = 0.0     # probability that a behaviour script applies to the program on every instance
     sequences = (0, 1, 2)
+    stop_sequences = None          # explicit stop_sequence values (None = same as sequences); 0 is legal: stopped last
     running_failure = ('CONTINUE', 'RESTART_PROCESS', 'STOP_APPLICATION', 'RESTART_APPLICATION')
     starting_failure = tuple(STARTING_FAILURE)
     distribution = ('ALL_INSTANCES',)
@@ -567,7 +588,7 @@ def config_st(draw, profile=Profile):
             if managed:
                 app_rules['start_sequence'] = draw(st.sampled_from(list(profile.sequences)))
                 if draw(_bern(0.3)):
-                    app_rules['stop_sequence'] = draw(st.sampled_from(list(profile.sequences)))
+                    app_rules['stop_sequence'] = draw(st.sampled_from(list(profile.stop_sequences or profile.sequences)))
                 app_rules['starting_failure_strategy'] = draw(st.sampled_from(list(profile.starting_failure)))
                 app_rules['running_failure_strategy'] = draw(st.sampled_from(list(profile.running_failure)))
                 dist = draw(st.sampled_from(list(profile.distribution)))
@@ -589,7 +610,7 @@ def config_st(draw, profile=Profile):
                 if managed:
                     prules['start_sequence'] = draw(st.sampled_from(list(profile.sequences)))
                     if draw(_bern(0.3)):
-                        prules['stop_sequence'] = draw(st.sampled_from(list(profile.sequences)))
+                        prules['stop_sequence'] = draw(st.sampled_from(list(profile.stop_sequences or profile.sequences)))
                     prules['required'] = draw(st.booleans())
                     if draw(_bern(profile.wait_exit)):
                         prules['wait_exit'] = True
@@ -716,6 +737,8 @@ def op_st(draw, config, kinds, specs):
         return [kind, draw(st.integers(0, 11)), draw(st.sampled_from([1, 1, 0]))]
     if kind == 'crash_host':
         return [kind, draw(st.integers(0, 7))]
+    if kind == 'restart_checked':
+        return [kind, draw(st.integers(0, 7)), draw(st.sampled_from([0, 0, 1, 3]))]
     if kind == 'crash_target':
         return [kind, draw(st.integers(0, 7)), draw(st.sampled_from([0, 0, 1]))]
     if kind in ('cut', 'heal', 'mute'):
